@@ -48,6 +48,23 @@ def main(argv):
             rep = json.load(f)
         check = reg[rep["property"]]()
         return driver.replay_file(check, argv[1])
+    if argv and argv[0] == "--digests":
+        # determinism self-test support: per-run digests/verdicts of the first n runs, as JSON
+        from simx import seeds
+        import multiprocessing
+        from concurrent.futures import ProcessPoolExecutor
+        check = reg[argv[1]]()
+        tier, n = argv[2], int(argv[3])
+        n = min(n, check.n_runs(tier))
+        driver._CHECK = check
+        workers = int(os.environ.get("VERIF_WORKERS", "4"))
+        chunk = max(1, n // (workers * 3))
+        tasks = [(seeds.verif_seed(), tier, list(range(i, min(n, i + chunk)))) for i in range(0, n, chunk)]
+        with ProcessPoolExecutor(max_workers=workers, mp_context=multiprocessing.get_context("fork")) as ex:
+            recs = [r for out in ex.map(driver._worker, tasks) for r in out]
+        recs.sort(key=lambda r: r["idx"])
+        print("DIGESTS " + json.dumps([[r["idx"], r.get("digest"), r.get("ok"), r.get("aborted"), r.get("ops")] for r in recs]))
+        return 0
     if len(argv) < 1 or argv[0] not in reg:
         print("usage: main.py <%s> <quick|thorough>" % "|".join(sorted(reg)))
         return 3
